@@ -281,6 +281,7 @@ func (p *Printer) reset() {
 	p.lastLevel, p.level = 0, 0
 	p.levelIncs = p.levelIncs[:0]
 	p.nestedBinary = false
+	p.wroteSemi = false
 	p.pendingHdocs = p.pendingHdocs[:0]
 }
 
